@@ -7,6 +7,7 @@ and SASLprep are arbitrary functions `P : Prims`; the only facts assumed about t
 hypotheses (`PrimsOK`: digest lengths, AES-CBC decrypt inverts encrypt).
 -/
 import PdfVerif.Lemmas.Crypt
+import PdfVerif.Lemmas.CryptKeys
 
 namespace PdfVerif.Props.C10
 open PdfVerif PdfVerif.Crypt PdfVerif.CryptWriter PdfVerif.Gen.Crypt
@@ -955,7 +956,7 @@ theorem C10_open (P : Prims) (hP : PrimsOK P) (cfg : Config) (pw : Passwords) (r
       simp only [Config.encryptDict] at ha' ⊢
       rcases hm with h | h | h <;> subst h <;>
         simp [withCryptFilter, params234, hr, HANDLER_REGISTRY, openHandler.lookup', SUPPORTED_REVISIONS_V4,
-          buildCfm, getCfm, cfmName, lookup, hcf, nameV2, nameAESV2] at ha' ⊢ <;>
+          buildCfm, getCfm_eq, FORCED_LENGTH_V4, cfmName, lookup, hcf, nameV2, nameAESV2] at ha' ⊢ <;>
         simp [ha', hcf, lookup]
     · rcases hm with h | h | h <;> subst h <;> simp [Config.method, lookup, hcf]
   | v5 r p cfName em =>
@@ -972,7 +973,7 @@ theorem C10_open (P : Prims) (hP : PrimsOK P) (cfg : Config) (pw : Passwords) (r
       simp only [Config.encryptDict] at ha' ⊢
       rcases hr with h | h <;> subst h <;>
         simp [withCryptFilter, params56, HANDLER_REGISTRY, openHandler.lookup', SUPPORTED_REVISIONS_V5,
-          buildCfm, getCfm, cfmName, lookup, hcf, nameAESV3] at ha' ⊢ <;>
+          buildCfm, getCfm_eq, FORCED_LENGTH_V5, cfmName, lookup, hcf, nameAESV3] at ha' ⊢ <;>
         simp [ha', hcf, lookup]
     · simp [Config.method, lookup, hcf]
 
@@ -1096,5 +1097,598 @@ example : (Config.v5 5 (-4) [83] true).valid toyPrims
   refine ⟨Or.inl rfl, by simp [nameIdentity], toy_salts8 5 rfl, by simp [normalizePassword, encodeUtf8, utf8Char, UTF8_PASSWORD_MAX], ?_⟩
   intro _
   simp [passwordHash, toyPrims]
+
+/-! # Round 6 -/
+
+/-! ## digest lengths: the 32-byte password hash is no longer a hypothesis -/
+
+/-- SHA-2 digest lengths (facts about hashlib; checked on every table value the driver receives). -/
+structure ShaLen (P : Prims) : Prop where
+  sha256_len : ∀ x, (P.sha256 x).length = 32
+  sha384_len : ∀ x, (P.sha384 x).length = 48
+  sha512_len : ∀ x, (P.sha512 x).length = 64
+
+/-- `_password_hash` returns exactly 32 bytes for every revision, password, salt and vector: SHA-256
+    for revision 5; for revision 6 the loop always ends (`r6_fuel_suffices`), K stays at least 32
+    bytes long through every round and `k[:32]` is returned. -/
+theorem passwordHash_length (P : Prims) (hs : ShaLen P) (r : Int) (pw salt vec : Bytes) :
+    (passwordHash P r pw salt vec).length = 32 := by
+  unfold passwordHash
+  split
+  · exact hs.sha256_len _
+  · have hd := r6_hash_defined P pw vec (P.sha256 (pw ++ salt.take 8 ++ vec))
+    cases hres : r6Loop P pw vec R6_FUEL 0 0 (P.sha256 (pw ++ salt.take 8 ++ vec)) with
+    | none => rw [hres] at hd; simp at hd
+    | some res =>
+      simp only [Option.getD_some]
+      exact r6Loop_length P hs.sha256_len hs.sha384_len hs.sha512_len pw vec _ _ _ _ res
+        (by rw [hs.sha256_len]; omega) hres
+
+/-- `Salts8.hash_len` (a hypothesis until round 5) follows from the digest lengths. -/
+theorem salts8_of_sha (P : Prims) (hs : ShaLen P) (r : Int) (s : Salts)
+    (huv : s.uv.length = 8) (hov : s.ov.length = 8) : Salts8 P r s :=
+  ⟨huv, hov, fun pw salt v => passwordHash_length P hs r pw salt v⟩
+
+/-! ## per-object keys: lengths (16-byte cap) -/
+
+/-- the RC4 object key has `min(n + 5, 16)` bytes (5 = 3 bytes of the object number + 2 of the
+    generation), for every file key, object number and generation -/
+theorem objKeyRc4_length (P : Prims) (hP : PrimsOK P) (key : Bytes) (objid genno : Nat) :
+    (objKeyRc4 P key objid genno).length = min (key.length + 5) 16 := by
+  simp [objKeyRc4, OBJID_BYTES_RC4, GENNO_BYTES_RC4, OBJKEY_MAX_RC4, leBytes_length, hP.md5_len]
+
+/-- the AES-128 object key of the reader has `min(n + 9, 16)` bytes: 16 for every reachable file
+    key (`v4_file_key_length`), and never more than 16 -/
+theorem objKeyAes_length (P : Prims) (hP : PrimsOK P) (key : Bytes) (objid genno : Nat) :
+    (objKeyAes P key objid genno).length = min (key.length + 9) 16 := by
+  simp [objKeyAes, OBJID_BYTES_AES, GENNO_BYTES_AES, OBJKEY_MAX_AES, AES_SALT, leBytes_length, hP.md5_len]
+
+/-- only the three low-order bytes of the object number and the two low-order bytes of the
+    generation enter the key -/
+theorem objKey_low_order_bytes (P : Prims) (key : Bytes) (objid genno : Nat) :
+    objKeyRc4 P key objid genno = objKeyRc4 P key (objid % 2 ^ 24) (genno % 2 ^ 16) ∧
+    objKeyAes P key objid genno = objKeyAes P key (objid % 2 ^ 24) (genno % 2 ^ 16) := by
+  have h3 : ∀ n, leBytes 3 n = leBytes 3 (n % 2 ^ 24) := by
+    intro n
+    have e1 : n % 2 ^ 24 % 256 = n % 256 := by omega
+    have e2 : n % 2 ^ 24 / 256 % 256 = n / 256 % 256 := by omega
+    have e3 : n % 2 ^ 24 / 256 / 256 % 256 = n / 256 / 256 % 256 := by omega
+    simp only [leBytes, e1, e2, e3]
+  have h2 : ∀ n, leBytes 2 n = leBytes 2 (n % 2 ^ 16) := by
+    intro n
+    have e1 : n % 2 ^ 16 % 256 = n % 256 := by omega
+    have e2 : n % 2 ^ 16 / 256 % 256 = n / 256 % 256 := by omega
+    simp only [leBytes, e1, e2]
+  constructor
+  · simp only [objKeyRc4, OBJID_BYTES_RC4, GENNO_BYTES_RC4]
+    rw [← h3 objid, ← h2 genno]
+  · simp only [objKeyAes, OBJID_BYTES_AES, GENNO_BYTES_AES]
+    rw [← h3 objid, ← h2 genno]
+
+/-! ## PKCS#7 unpadding is a total function with an exhaustive case split -/
+
+/-- **`unpad_aes` on every input**: either the data ends in a well-formed padding (`n` bytes of
+    value `n`, `1 ≤ n ≤ 16`) and exactly that padding is removed, or it does not (empty data, last
+    byte 0 or above 16, fewer than `n` bytes, a differing byte among the last `n`) and the data is
+    returned unchanged.  The two cases are exclusive and exhaustive. -/
+theorem unpad_total (p : Bytes) :
+    (∃ d n, 1 ≤ n ∧ n ≤ 16 ∧ p = d ++ List.replicate n (UInt8.ofNat n) ∧ unpadAes p = d) ∨
+    ((¬ ∃ d n, 1 ≤ n ∧ n ≤ 16 ∧ p = d ++ List.replicate n (UInt8.ofNat n)) ∧ unpadAes p = p) := by
+  by_cases h : ∃ d n, 1 ≤ n ∧ n ≤ 16 ∧ p = d ++ List.replicate n (UInt8.ofNat n)
+  · obtain ⟨d, n, h1, h16, hp⟩ := h
+    exact Or.inl ⟨d, n, h1, h16, hp, by rw [hp]; exact unpadAes_wellformed d n h1 h16⟩
+  · exact Or.inr ⟨h, unpadAes_malformed p h⟩
+
+/-- the result is a prefix of the input and at most 16 bytes shorter -/
+theorem unpad_prefix (p : Bytes) :
+    unpadAes p <+: p ∧ p.length ≤ (unpadAes p).length + 16 :=
+  ⟨unpadAes_prefix p, (unpadAes_length p).2⟩
+
+/-- the split of a well-formed padded string is unique (so "the" padding is well defined) -/
+theorem unpad_unique (d d' : Bytes) (n n' : Nat) (h1 : 1 ≤ n) (h16 : n ≤ 16) (h1' : 1 ≤ n') (h16' : n' ≤ 16)
+    (h : d ++ List.replicate n (UInt8.ofNat n) = d' ++ List.replicate n' (UInt8.ofNat n')) : d = d' := by
+  have a := unpadAes_wellformed d n h1 h16
+  have b := unpadAes_wellformed d' n' h1' h16'
+  rw [h] at a
+  exact a.symm.trans b
+
+example : unpadAes [65, 66, 2, 2] = [65, 66] ∧ unpadAes [65, 66, 3, 3] = [65, 66, 3, 3] ∧
+    unpadAes [65, 0] = [65, 0] ∧ unpadAes [65, 17] = [65, 17] ∧ unpadAes [] = [] ∧
+    unpadAes (List.replicate 16 16) = [] ∧ unpadAes [5, 5] = [5, 5] := by decide
+
+/-! ## crypt-filter selection as a decision table -/
+
+/-- methods a handler class can hold (`get_cfm` of the class, plus the built-in Identity) -/
+def allowedMethod (cls : Nat) (m : Method) : Prop :=
+  m = .identity ∨ (cls = 4 ∧ (m = .rc4 ∨ m = .aes128)) ∨ (cls = 5 ∧ m = .aes256)
+
+/-- **The table is exhaustive**: for every Encrypt dictionary and password that `_initialize_password`
+    accepts, the handler is of class 1, 4 or 5, and for classes 4 and 5 StrF names an entry of the
+    crypt-filter map whose method is one `get_cfm` of that class can return (V2 / AESV2 for V4, AESV3
+    for V5) or Identity - `self.cfm[name]` in `decrypt` can not raise KeyError and the `none` row of
+    `selectMethod` is unreachable. -/
+theorem openHandler_method (P : Prims) (prm : Params) (pw : List Nat) (h : Handler)
+    (ho : openHandler P prm pw = .ok h) :
+    (h.cls = 1 ∨ h.cls = 4 ∨ h.cls = 5) ∧
+    (h.cls ≠ 1 → ∃ m, lookup h.strf h.cfm = some m ∧ allowedMethod h.cls m) := by
+  unfold openHandler at ho
+  split at ho
+  · simp at ho
+  split at ho
+  · simp at ho
+  rename_i cls hcls
+  simp only at ho
+  split at ho
+  · -- class 1
+    split at ho
+    · simp at ho
+    split at ho
+    · simp at ho
+    · simp only [Except.ok.injEq] at ho
+      subst ho
+      simp
+  · split at ho
+    · simp at ho
+    split at ho
+    · simp at ho
+    rename_i ms hms
+    split at ho
+    · simp at ho
+    rename_i hlk
+    -- the method StrF names
+    have hsome : ∃ m, lookup prm.strf (ms.filter (fun km => km.1 ≠ nameIdentity) ++ [(nameIdentity, Method.identity)]) = some m := by
+      cases hl : lookup prm.strf (ms.filter (fun km => km.1 ≠ nameIdentity) ++ [(nameIdentity, Method.identity)]) with
+      | none => rw [hl] at hlk; simp at hlk
+      | some m => exact ⟨m, rfl⟩
+    obtain ⟨m, hm⟩ := hsome
+    have hmem := lookup_mem _ _ _ hm
+    have hget : m = .identity ∨ ∃ name, getCfm cls name = some m := by
+      rcases List.mem_append.mp hmem with h1 | h1
+      · right
+        exact buildCfm_methods cls prm.cf ms hms _ (List.mem_filter.mp h1).1
+      · left
+        simp at h1
+        exact h1.2
+    split at ho
+    · -- class 4
+      rename_i h4
+      split at ho
+      · simp at ho
+      split at ho
+      · simp at ho
+      · simp only [Except.ok.injEq] at ho
+        subst ho
+        refine ⟨Or.inr (Or.inl rfl), fun _ => ⟨m, hm, ?_⟩⟩
+        rcases hget with hid | ⟨name, hn⟩
+        · exact Or.inl hid
+        · right; left
+          refine ⟨rfl, ?_⟩
+          rw [getCfm_eq, if_pos h4] at hn
+          split at hn
+          · left; simpa using hn.symm
+          · split at hn
+            · right; simpa using hn.symm
+            · simp at hn
+    · rename_i h4
+      split at ho
+      · simp at ho
+      split at ho
+      · simp at ho
+      · simp only [Except.ok.injEq] at ho
+        subst ho
+        refine ⟨Or.inr (Or.inr rfl), fun _ => ⟨m, hm, ?_⟩⟩
+        rcases hget with hid | ⟨name, hn⟩
+        · exact Or.inl hid
+        · right; right
+          refine ⟨rfl, ?_⟩
+          rw [getCfm_eq, if_neg h4] at hn
+          split at hn
+          · simpa using hn.symm
+          · simp at hn
+
+/-- `decrypt` is the table look-up followed by the chosen cipher. -/
+theorem decrypt_eq_table (P : Prims) (h : Handler) (objid genno : Nat) (isMetadata : Bool) (data : Bytes) :
+    decrypt P h objid genno isMetadata data =
+      match selectMethod h isMetadata with
+      | some m => applyMethod P h m objid genno data
+      | none => data := by
+  unfold decrypt selectMethod
+  by_cases h1 : h.cls = 1
+  · simp [h1, applyMethod]
+  · by_cases h2 : ¬ h.encryptMetadata ∧ isMetadata
+    · obtain ⟨ha, hb⟩ := h2
+      simp [h1, ha, hb, applyMethod]
+    · simp only [h1, if_false, h2]
+      cases lookup h.strf h.cfm <;> rfl
+
+/-- **The reader's table is the standard's table** (ISO 32000-1 7.6.5) for every opened handler and
+    every kind of data: strings (deciphered with `attrs=None`), ordinary streams, Metadata streams,
+    EncryptMetadata on or off; StmF = StrF = the crypt filter `m`. -/
+theorem selectMethod_is_spec (h : Handler) (m : Method)
+    (hm : if h.cls = 1 then m = .rc4 else lookup h.strf h.cfm = some m) (isStream isMetadata : Bool) :
+    selectMethod h (isStream && isMetadata)
+      = some (specSelect (h.cls != 1) h.encryptMetadata isStream isMetadata m m) := by
+  unfold selectMethod specSelect
+  by_cases h1 : h.cls = 1
+  · simp [h1]
+  · simp only [h1, if_false] at hm
+    cases isStream <;> cases isMetadata <;> cases hem : h.encryptMetadata <;> simp [h1, hm]
+
+/-- every row of the table, spelled out (handler class × EncryptMetadata × Metadata stream) -/
+example (cfName : Bytes) (m : Method) (em : Bool) :
+    let h4 : Handler := { cls := 4, r := 4, p := 0, length := 128, key := [], cfm := [(cfName, m)],
+                          strf := cfName, encryptMetadata := em }
+    let h1 : Handler := { cls := 1, r := 3, p := 0, length := 40, key := [] }
+    selectMethod h1 true = some .rc4 ∧ selectMethod h1 false = some .rc4 ∧
+    selectMethod h4 false = some m ∧
+    selectMethod h4 true = some (if em then m else .identity) ∧
+    selectMethod { h4 with strf := nameIdentity } false = (if cfName = nameIdentity then some m else none) := by
+  cases em <;> simp [selectMethod, lookup, eq_comm]
+
+/-! ## either password opens the document - with the same file key, the same handler -/
+
+/-- the password-independent part of `Config.valid` -/
+def Config.wf : Config → Prop
+  | .base v c => (v = 1 ∨ v = 2) ∧ (c.r = 2 ∨ c.r = 3) ∧ 8 ≤ c.length
+  | .v4 c cfName m =>
+    c.r = 4 ∧ c.length = 128 ∧ (m = .rc4 ∨ m = .aes128 ∨ m = .identity) ∧ cfName ≠ nameIdentity
+  | .v5 r _ cfName _ => (r = 5 ∨ r = 6) ∧ cfName ≠ nameIdentity
+
+theorem Config.valid_wf (P : Prims) (cfg : Config) (pw : Passwords) (rnd : Rand)
+    (hv : cfg.valid P pw rnd) : cfg.wf := by
+  cases cfg with
+  | base v c => exact ⟨hv.1, hv.2.1, hv.2.2.1⟩
+  | v4 c cfName m => exact ⟨hv.1, hv.2.1, hv.2.2.1, hv.2.2.2.1⟩
+  | v5 r p cfName em => exact ⟨hv.1, hv.2.1⟩
+
+/-- the `authenticate` call `_initialize_password` makes for this configuration's handler class -/
+def Config.authenticate (P : Prims) (cfg : Config) (prm : Params) (cps : List Nat) : Except Err Bytes :=
+  match cfg with
+  | .base _ c => authenticate234 P prm c.length (uintValue32 c.p) cps
+  | .v4 c _ _ => authenticate234 P prm 128 (uintValue32 c.p) cps
+  | .v5 _ _ _ _ => authenticate56 P prm cps
+
+/-- Handler selection, `init_params` and the revision check succeed for every well-formed
+    configuration *whatever the password*: `openHandler` is `authenticate` of the selected class,
+    wrapped into the handler.  (Generalises `C10_open`, which fixes the user password.) -/
+theorem C10_open_of_authenticate (P : Prims) (cfg : Config) (pw : Passwords) (rnd : Rand)
+    (hw : cfg.wf) (cps : List Nat)
+    (ha : cfg.authenticate P (cfg.encryptDict P pw rnd) cps = .ok (cfg.fileKey P pw rnd)) :
+    ∃ h, openHandler P (cfg.encryptDict P pw rnd) cps = .ok h ∧
+         h.key = cfg.fileKey P pw rnd ∧ h.p = uintValue32 cfg.P ∧
+         (if h.cls = 1 then cfg.method = .rc4 else lookup h.strf h.cfm = some cfg.method) := by
+  cases cfg with
+  | base v c =>
+    obtain ⟨hv', hr, hl⟩ := hw
+    refine ⟨{ cls := 1, r := c.r, p := uintValue32 c.p, length := c.length,
+              key := (derive234 P c (pad32 pw.user) (pad32 pw.owner) rnd.tail).2.2 }, ?_, rfl, rfl, ?_⟩
+    · unfold openHandler
+      simp only [Config.authenticate, Config.encryptDict, Config.fileKey, params234] at ha ⊢
+      rcases hv' with h1 | h1 <;> rcases hr with h2 | h2 <;>
+        simp [h1, h2, HANDLER_REGISTRY, openHandler.lookup', SUPPORTED_REVISIONS_BASE] at ha ⊢ <;>
+        simp [ha]
+    · simp [Config.method]
+  | v4 c cfName m =>
+    obtain ⟨hr, hl, hm, hcf⟩ := hw
+    refine ⟨{ cls := 4, r := 4, p := uintValue32 c.p, length := 128,
+              key := (derive234 P c (pad32 pw.user) (pad32 pw.owner) rnd.tail).2.2,
+              cfm := (if m = .identity then [] else [(cfName, m)]).filter (fun km => km.1 ≠ nameIdentity)
+                       ++ [(nameIdentity, Method.identity)],
+              strf := if m = .identity then nameIdentity else cfName,
+              encryptMetadata := c.encryptMetadata }, ?_, rfl, rfl, ?_⟩
+    · unfold openHandler
+      simp only [Config.authenticate, Config.encryptDict, Config.fileKey] at ha ⊢
+      rcases hm with h | h | h <;> subst h <;>
+        simp [withCryptFilter, params234, hr, HANDLER_REGISTRY, openHandler.lookup', SUPPORTED_REVISIONS_V4,
+          buildCfm, getCfm_eq, FORCED_LENGTH_V4, cfmName, lookup, hcf, nameV2, nameAESV2] at ha ⊢ <;>
+        simp [ha, hcf, lookup]
+    · rcases hm with h | h | h <;> subst h <;> simp [Config.method, lookup, hcf]
+  | v5 r p cfName em =>
+    obtain ⟨hr, hcf⟩ := hw
+    refine ⟨{ cls := 5, r := r, p := uintValue32 p, length := 256, key := rnd.fileKey,
+              cfm := [(cfName, Method.aes256)].filter (fun km => km.1 ≠ nameIdentity)
+                       ++ [(nameIdentity, Method.identity)],
+              strf := cfName, encryptMetadata := em }, ?_, rfl, rfl, ?_⟩
+    · unfold openHandler
+      simp only [Config.authenticate, Config.encryptDict, Config.fileKey] at ha ⊢
+      rcases hr with h | h <;> subst h <;>
+        simp [withCryptFilter, params56, HANDLER_REGISTRY, openHandler.lookup', SUPPORTED_REVISIONS_V5,
+          buildCfm, getCfm_eq, FORCED_LENGTH_V5, cfmName, lookup, hcf, nameAESV3] at ha ⊢ <;>
+        simp [ha, hcf, lookup]
+    · simp [Config.method, lookup, hcf]
+
+/-- What makes `ownerCps` the owner password of the document, and the one assumption about it.
+    R2-R4: the code tries the *user* path first, so the owner password must not itself pass the U
+    check unless it pads to the same 32 bytes as the user password (H1, second-preimage resistance
+    of the U check).  R5/R6: the owner branch is tried first - nothing is assumed. -/
+def Config.ownerValid (P : Prims) : Config → Passwords → Rand → List Nat → Prop
+  | .base v c, pw, rnd, ownerCps =>
+    encodeLatin1 ownerCps = some pw.owner ∧
+    (authUser P (params234 c v (derive234 P c (pad32 pw.user) (pad32 pw.owner) rnd.tail).1
+        (derive234 P c (pad32 pw.user) (pad32 pw.owner) rnd.tail).2.1) c.length (uintValue32 c.p) pw.owner = none
+      ∨ pad32 pw.owner = pad32 pw.user)
+  | .v4 c _ _, pw, rnd, ownerCps =>
+    encodeLatin1 ownerCps = some pw.owner ∧
+    (authUser P (params234 c 4 (derive234 P c (pad32 pw.user) (pad32 pw.owner) rnd.tail).1
+        (derive234 P c (pad32 pw.user) (pad32 pw.owner) rnd.tail).2.1) c.length (uintValue32 c.p) pw.owner = none
+      ∨ pad32 pw.owner = pad32 pw.user)
+  | .v5 r _ _ _, pw, _, ownerCps => normalizePassword P r ownerCps = .ok pw.owner
+
+/-- **Opening with the owner password** - every configuration. -/
+theorem C10_open_owner (P : Prims) (hP : PrimsOK P) (cfg : Config) (pw : Passwords) (rnd : Rand)
+    (hv : cfg.valid P pw rnd) (ownerCps : List Nat) (hov : cfg.ownerValid P pw rnd ownerCps) :
+    ∃ h, openHandler P (cfg.encryptDict P pw rnd) ownerCps = .ok h ∧
+         h.key = cfg.fileKey P pw rnd ∧ h.p = uintValue32 cfg.P ∧
+         (if h.cls = 1 then cfg.method = .rc4 else lookup h.strf h.cfm = some cfg.method) := by
+  apply C10_open_of_authenticate P cfg pw rnd (Config.valid_wf P cfg pw rnd hv)
+  cases cfg with
+  | base v c =>
+    obtain ⟨hv', hr, hl, _⟩ := hv
+    have hr' : c.r = 2 ∨ c.r = 3 ∨ c.r = 4 := by rcases hr with h | h <;> simp [h]
+    exact authenticate_owner_accepts_partial P hP c v ownerCps pw.user pw.owner rnd.tail hr' hl hov.1 hov.2
+  | v4 c cfName m =>
+    obtain ⟨hr, hl, _⟩ := hv
+    have ha := authenticate_owner_accepts_partial P hP c 4 ownerCps pw.user pw.owner rnd.tail
+      (Or.inr (Or.inr hr)) (by omega) hov.1 hov.2
+    rw [hl] at ha
+    exact ha
+  | v5 r p cfName em =>
+    obtain ⟨_, _, hs, _⟩ := hv
+    exact r56_authenticate_owner P hP r rnd.fileKey pw.user pw.owner rnd.salts hs ownerCps hov
+
+/-- **Either password yields the very same handler** (class, file key, permissions, crypt-filter
+    map): whatever is read afterwards cannot depend on which of the two passwords was used. -/
+theorem C10_either_password (P : Prims) (hP : PrimsOK P) (cfg : Config) (pw : Passwords) (rnd : Rand)
+    (hv : cfg.valid P pw rnd) (ownerCps : List Nat) (hov : cfg.ownerValid P pw rnd ownerCps) :
+    ∃ h, openHandler P (cfg.encryptDict P pw rnd) pw.userCps = .ok h ∧
+         openHandler P (cfg.encryptDict P pw rnd) ownerCps = .ok h ∧
+         h.key = cfg.fileKey P pw rnd := by
+  obtain ⟨hu, hou, hku, _⟩ := C10_open P hP cfg pw rnd hv
+  obtain ⟨ho, hoo, hko, _⟩ := C10_open_owner P hP cfg pw rnd hv ownerCps hov
+  refine ⟨hu, hou, ?_, hku⟩
+  rw [hoo]
+  congr 1
+  -- both handlers are built from the same dictionary and the same key
+  have key_eq : ho.key = hu.key := by rw [hko, hku]
+  clear hku hko
+  unfold openHandler at hou hoo
+  revert hou hoo
+  split
+  · intro h; simp at h
+  split
+  · intro h; simp at h
+  simp only
+  split
+  · split
+    · intro h; simp at h
+    · split <;> split <;> intro h1 h2 <;> simp at h1 h2
+      subst h1 h2
+      simp only [Handler.mk.injEq, true_and, and_true] at key_eq ⊢
+      exact key_eq
+  · split
+    · intro h; simp at h
+    split
+    · intro h; simp at h
+    split
+    · intro h; simp at h
+    split
+    · split
+      · intro h; simp at h
+      · split <;> split <;> intro h1 h2 <;> simp at h1 h2
+        subst h1 h2
+        simp only [Handler.mk.injEq, true_and, and_true] at key_eq ⊢
+        exact key_eq
+    · split
+      · intro h; simp at h
+      · split <;> split <;> intro h1 h2 <;> simp at h1 h2
+        subst h1 h2
+        simp only [Handler.mk.injEq, true_and, and_true] at key_eq ⊢
+        exact key_eq
+
+/-- **C10, main statement (owner password).**  As `C10_main`, with the owner password: the document
+    opens, the permissions are the stored bits and every direct object reads back as before
+    encryption.  Assumptions: those of `C10_main` plus `Config.ownerValid` (for R2-R4 the clause H1;
+    nothing for R5/R6). -/
+theorem C10_main_owner (P : Prims) (hP : PrimsOK P) (cfg : Config) (pw : Passwords) (rnd : Rand)
+    (hv : cfg.valid P pw rnd) (ownerCps : List Nat) (hov : cfg.ownerValid P pw rnd ownerCps)
+    (ivOf : Bytes → Bytes) (hiv : ∀ b, (ivOf b).length = 16) :
+    ∃ h, openHandler P (cfg.encryptDict P pw rnd) ownerCps = .ok h ∧
+      (isPrintable h = (uintValue32 cfg.P / 4 % 2 == 1) ∧
+       isModifiable h = (uintValue32 cfg.P / 8 % 2 == 1) ∧
+       isExtractable h = (uintValue32 cfg.P / 16 % 2 == 1)) ∧
+      ∀ (objid genno : Nat) (o : Obj),
+        getobj P h .direct objid genno
+          (encryptAll (fun b => encryptBytes P cfg.method (cfg.fileKey P pw rnd) objid genno (ivOf b) b)
+            (fun attrs => h.cls ≠ 1 ∧ ¬ h.encryptMetadata ∧ attrsType attrs = some atomMetadata) o) = o := by
+  obtain ⟨h, hu, ho, _⟩ := C10_either_password P hP cfg pw rnd hv ownerCps hov
+  obtain ⟨h', hu', hperm, hrt⟩ := C10_main P hP cfg pw rnd hv ivOf hiv
+  rw [hu] at hu'
+  have : h = h' := by simpa using hu'
+  subst this
+  exact ⟨h, ho, hperm, hrt⟩
+
+/-- V5 configurations need no separate hypothesis on the hash length any more: digest lengths and
+    8-byte salts give `Salts8` (`salts8_of_sha`), so for R5/R6 the complete list of assumptions of
+    `C10_main` / `C10_main_owner` is: `PrimsOK`, `ShaLen`, and the one no-collision clause. -/
+theorem C10_v5_valid_of_sha (P : Prims) (hs : ShaLen P) (r p : Int) (cfName : Bytes) (em : Bool)
+    (pw : Passwords) (rnd : Rand) (hr : r = 5 ∨ r = 6) (hcf : cfName ≠ nameIdentity)
+    (huv : rnd.salts.uv.length = 8) (hov : rnd.salts.ov.length = 8)
+    (hn : normalizePassword P r pw.userCps = .ok pw.user)
+    (hcoll : pw.user ≠ pw.owner →
+      passwordHash P r pw.user rnd.salts.ov (derive56 P r rnd.fileKey pw.user pw.owner rnd.salts).1
+        ≠ passwordHash P r pw.owner rnd.salts.ov (derive56 P r rnd.fileKey pw.user pw.owner rnd.salts).1) :
+    (Config.v5 r p cfName em).valid P pw rnd :=
+  ⟨hr, hcf, salts8_of_sha P hs r rnd.salts huv hov, hn, hcoll⟩
+
+/-! ### non-vacuity (round 6) -/
+
+theorem toyPrims_sha : ShaLen toyPrims where
+  sha256_len := by intro x; simp [toyPrims]
+  sha384_len := by intro x; simp [toyPrims]
+  sha512_len := by intro x; simp [toyPrims]
+
+/-- revision 6 with the toy primitives: the loop really runs and returns 32 bytes -/
+example : (passwordHash toyPrims 6 [117] (List.replicate 8 1) []).length = 32 :=
+  passwordHash_length toyPrims toyPrims_sha 6 _ _ _
+
+/-- a revision 6 configuration is valid with 8-byte salts, no `hash_len` hypothesis; user = owner
+    password, so the no-collision clause is void -/
+example : (Config.v5 6 (-4) [83] false).valid toyPrims
+    { userCps := [], user := [], owner := [] }
+    { tail := [], fileKey := List.replicate 32 7,
+      salts := ⟨List.replicate 8 1, List.replicate 8 2, List.replicate 8 3, List.replicate 8 4⟩ } :=
+  C10_v5_valid_of_sha toyPrims toyPrims_sha 6 (-4) [83] false _ _ (Or.inr rfl) (by simp [nameIdentity])
+    (by simp) (by simp) (by simp [normalizePassword]) (fun h => absurd rfl h)
+
+/-- `Config.ownerValid` is satisfiable: revision 5, owner password "o" ≠ user password "u" -/
+example : (Config.v5 5 (-4) [83] true).ownerValid toyPrims
+    { userCps := [117], user := [117], owner := [111] }
+    { tail := [], fileKey := List.replicate 32 7,
+      salts := ⟨List.replicate 8 1, List.replicate 8 2, List.replicate 8 3, List.replicate 8 4⟩ } [111] := by
+  simp [Config.ownerValid, normalizePassword, encodeUtf8, utf8Char, UTF8_PASSWORD_MAX]
+
+/-- ... and for a revision 2 document whose two passwords pad to the same 32 bytes (the second
+    disjunct; a password longer than 32 bytes and its 32-byte prefix) -/
+example : (Config.base 1 { r := 2, length := 40, p := -64, id0 := [9] }).ownerValid toyPrims
+    { userCps := List.replicate 32 65, user := List.replicate 32 65, owner := List.replicate 33 65 }
+    { tail := [], fileKey := [], salts := ⟨[], [], [], []⟩ } (List.replicate 33 65) := by
+  refine ⟨by decide, Or.inr (by decide)⟩
+
+/-! ## regenerated (round 6) tables and constants agree with the standard -/
+
+/-- **`get_cfm` (regenerated from pdfdocument.py on every run) is ISO 32000's CFM table**: the V4
+    handler maps V2 to RC4 and AESV2 to AES-128, the V5 handler AESV3 to AES-256; every other name
+    (including `None`, `Identity` as a CFM, and AESV3 under V4) is refused. -/
+theorem get_cfm_is_standard (cls : Nat) (name : Bytes) :
+    getCfm cls name =
+      if cls = 4 then
+        if name = nameV2 then some .rc4 else if name = nameAESV2 then some .aes128 else none
+      else
+        if name = nameAESV3 then some .aes256 else none :=
+  getCfm_eq cls name
+
+/-- the other regenerated constants of `init_params` / `decrypt` / `unpad_aes`: the built-in
+    Identity filter, the Metadata bypass, the forced key lengths, StrF as the one filter name, the
+    padding bounds -/
+theorem crypt_filter_constants :
+    BUILTIN_FILTER = (nameIdentity, "decrypt_identity") ∧ methodOfPy BUILTIN_FILTER.2 = some .identity ∧
+    atomMetadata = 47 :: BYPASS_TYPE ∧
+    FORCED_LENGTH_V4 = 128 ∧ FORCED_LENGTH_V5 = 256 ∧ DEFAULT_FILTER_ATTR = "strf" ∧
+    UNPAD_MIN = 1 ∧ UNPAD_MAX = 16 := by decide
+
+example : getCfm 4 nameAESV2 = some .aes128 ∧ getCfm 4 nameAESV3 = none ∧ getCfm 5 nameAESV3 = some .aes256 ∧
+    getCfm 5 nameV2 = none ∧ getCfm 4 nameIdentity = none := by decide
+
+/-! ## wrong passwords at the level of the whole `_initialize_password` -/
+
+/-- For every well-formed configuration and every password, an error of the selected class's
+    `authenticate` is the error `_initialize_password` raises: no earlier check (Filter, registry,
+    revision, StmF = StrF, CFM names, StrF defined) can fail for a writer's dictionary. -/
+theorem C10_open_error_of_authenticate (P : Prims) (cfg : Config) (pw : Passwords) (rnd : Rand)
+    (hw : cfg.wf) (cps : List Nat) (e : Err)
+    (ha : cfg.authenticate P (cfg.encryptDict P pw rnd) cps = .error e) :
+    openHandler P (cfg.encryptDict P pw rnd) cps = .error e := by
+  cases cfg with
+  | base v c =>
+    obtain ⟨hv', hr, hl⟩ := hw
+    unfold openHandler
+    simp only [Config.authenticate, Config.encryptDict, params234] at ha ⊢
+    rcases hv' with h1 | h1 <;> rcases hr with h2 | h2 <;>
+      simp [h1, h2, HANDLER_REGISTRY, openHandler.lookup', SUPPORTED_REVISIONS_BASE] at ha ⊢ <;>
+      simp [ha]
+  | v4 c cfName m =>
+    obtain ⟨hr, hl, hm, hcf⟩ := hw
+    unfold openHandler
+    simp only [Config.authenticate, Config.encryptDict] at ha ⊢
+    rcases hm with h | h | h <;> subst h <;>
+      simp [withCryptFilter, params234, hr, HANDLER_REGISTRY, openHandler.lookup', SUPPORTED_REVISIONS_V4,
+        buildCfm, getCfm_eq, FORCED_LENGTH_V4, cfmName, lookup, hcf, nameV2, nameAESV2] at ha ⊢ <;>
+      simp [ha, hcf, lookup]
+  | v5 r p cfName em =>
+    obtain ⟨hr, hcf⟩ := hw
+    unfold openHandler
+    simp only [Config.authenticate, Config.encryptDict] at ha ⊢
+    rcases hr with h | h <;> subst h <;>
+      simp [withCryptFilter, params56, HANDLER_REGISTRY, openHandler.lookup', SUPPORTED_REVISIONS_V5,
+        buildCfm, getCfm_eq, FORCED_LENGTH_V5, cfmName, lookup, hcf, nameAESV3] at ha ⊢ <;>
+      simp [ha, hcf, lookup]
+
+/-- The cryptographic assumptions under which a password that is neither the user's nor the
+    owner's is rejected: R2-R4 - H1 and H2 of `C10_rejects_writer_partial` and "pads to neither";
+    R5/R6 - its two validation hashes collide with neither stored hash. -/
+def Config.wrongPassword (P : Prims) : Config → Passwords → Rand → List Nat → Prop
+  | .base v c, pw, rnd, cps =>
+    let prm := params234 c v (derive234 P c (pad32 pw.user) (pad32 pw.owner) rnd.tail).1
+                (derive234 P c (pad32 pw.user) (pad32 pw.owner) rnd.tail).2.1
+    (∀ q : Bytes, verifyKey P prm (alg2Key P c (pad32 q) prm.o) = true → pad32 q = pad32 pw.user) ∧
+    (∀ q : Bytes, recoverUser P prm c.length q = pad32 pw.user → pad32 q = pad32 pw.owner) ∧
+    (∀ b, encodeLatin1 cps = some b → pad32 b ≠ pad32 pw.user ∧ pad32 b ≠ pad32 pw.owner)
+  | .v4 c _ _, pw, rnd, cps =>
+    let prm := params234 c 4 (derive234 P c (pad32 pw.user) (pad32 pw.owner) rnd.tail).1
+                (derive234 P c (pad32 pw.user) (pad32 pw.owner) rnd.tail).2.1
+    (∀ q : Bytes, verifyKey P prm (alg2Key P c (pad32 q) prm.o) = true → pad32 q = pad32 pw.user) ∧
+    (∀ q : Bytes, recoverUser P prm c.length q = pad32 pw.user → pad32 q = pad32 pw.owner) ∧
+    (∀ b, encodeLatin1 cps = some b → pad32 b ≠ pad32 pw.user ∧ pad32 b ≠ pad32 pw.owner)
+  | .v5 r _ _ _, pw, rnd, cps =>
+    (∃ e, normalizePassword P r cps = .error e ∧ e = .passwordIncorrect) ∨
+    ∃ b, normalizePassword P r cps = .ok b ∧
+      passwordHash P r b rnd.salts.ov (derive56 P r rnd.fileKey pw.user pw.owner rnd.salts).1
+        ≠ passwordHash P r pw.owner rnd.salts.ov (derive56 P r rnd.fileKey pw.user pw.owner rnd.salts).1 ∧
+      passwordHash P r b rnd.salts.uv [] ≠ passwordHash P r pw.user rnd.salts.uv []
+
+/-- **Every other password is rejected with the password-incorrect error**, for the whole
+    `_initialize_password` and every configuration.  `_partial`: the assumptions are exactly those
+    collected in `Config.wrongPassword` (no-collision clauses for MD5/RC4 resp. the password hash);
+    handler selection, `init_params`, padding, Latin-1 / SASLprep / UTF-8 steps are proved. -/
+theorem C10_wrong_password_rejected_partial (P : Prims) (hP : PrimsOK P) (cfg : Config) (pw : Passwords)
+    (rnd : Rand) (hv : cfg.valid P pw rnd) (cps : List Nat) (hwp : cfg.wrongPassword P pw rnd cps) :
+    openHandler P (cfg.encryptDict P pw rnd) cps = .error .passwordIncorrect := by
+  apply C10_open_error_of_authenticate P cfg pw rnd (Config.valid_wf P cfg pw rnd hv)
+  cases cfg with
+  | base v c =>
+    obtain ⟨_, hr, hl, _⟩ := hv
+    obtain ⟨H1, H2, hw⟩ := hwp
+    have hr' : c.r = 2 ∨ c.r = 3 ∨ c.r = 4 := by rcases hr with h | h <;> simp [h]
+    exact C10_rejects_writer_partial P c v pw.user pw.owner rnd.tail cps hr' hl H1 H2 hw
+  | v4 c cfName m =>
+    obtain ⟨hr, hl, _⟩ := hv
+    obtain ⟨H1, H2, hw⟩ := hwp
+    have h := C10_rejects_writer_partial P c 4 pw.user pw.owner rnd.tail cps (Or.inr (Or.inr hr))
+      (by omega) H1 H2 hw
+    rw [hl] at h
+    exact h
+  | v5 r p cfName em =>
+    obtain ⟨_, _, hs, _⟩ := hv
+    rcases hwp with ⟨e, hn, he⟩ | ⟨b, hn, hno, hnu⟩
+    · subst he
+      show authenticate56 P _ cps = .error .passwordIncorrect
+      unfold authenticate56
+      simp only [Config.encryptDict, withCryptFilter, params56] at hn ⊢
+      rw [hn]
+    · exact r56_rejects_writer_partial P hP r rnd.fileKey pw.user pw.owner b rnd.salts hs cps hn hno hnu
+
+/-! ## file-key lengths -/
+
+/-- **Length of the file key** for every R2-R4 configuration: 5 bytes for revision 2 whatever
+    `Length` says, `Length / 8` (at most 16) for revisions 3 and 4 - hence 16 for every V4
+    document. -/
+theorem C10_file_key_length (P : Prims) (hP : PrimsOK P) (c : Cfg) (pu o : Bytes)
+    (hr : c.r = 2 ∨ c.r = 3 ∨ c.r = 4) :
+    (alg2Key P c pu o).length = if c.r = 2 then 5 else min (c.length / 8) 16 := by
+  rcases hr with h | h | h
+  · unfold alg2Key keyLen
+    simp [h, hP.md5_len]
+  · rw [alg2Key_length P hP.md5_len c pu o (by omega)]
+    simp [keyLen, h]
+  · rw [alg2Key_length P hP.md5_len c pu o (by omega)]
+    simp [keyLen, h]
+
+/-- non-vacuity of `Config.wrongPassword`: a password SASLprep-independent (R5) whose hashes differ -/
+example : (Config.v5 5 (-4) [83] true).wrongPassword toyPrims
+    { userCps := [117], user := [117], owner := [111] }
+    { tail := [], fileKey := List.replicate 32 7,
+      salts := ⟨List.replicate 8 1, List.replicate 8 2, List.replicate 8 3, List.replicate 8 4⟩ } [120] := by
+  refine Or.inr ⟨[120], by simp [normalizePassword, encodeUtf8, utf8Char, UTF8_PASSWORD_MAX], ?_, ?_⟩ <;>
+    simp [passwordHash, toyPrims]
 
 end PdfVerif.Props.C10
